@@ -149,7 +149,8 @@ def All2 {α β} (R : α → β → Prop) : List α → List β → Prop
   | _, _ => False
 
 /-- equal as multisets, elements compared by `R` -/
-def PermBy {α} (R : α → α → Prop) (l1 l2 : List α) : Prop := ∃ l', l1.Perm l' ∧ All2 R l' l2
+def PermBy {α} (R : α → α → Prop) (l1 l2 : List α) : Prop :=
+  ∃ l1' l2', l1.Perm l1' ∧ l2.Perm l2' ∧ All2 R l1' l2'
 
 /-- `a ≈τ b`: structural equality, except hash-table collections modulo iteration order, vector clocks
 modulo trailing zeros, and random choices modulo actors without pending choices (padding). -/
@@ -221,16 +222,21 @@ def all2B {α β} (r : α → β → Bool) : List α → List β → Bool
   | a :: as, b :: bs => r a b && all2B r as bs
   | _, _ => false
 
+/-- remove the first element satisfying `r` -/
+def removeFirst {α} (r : α → Bool) : List α → Option (α × List α)
+  | [] => none
+  | b :: l => if r b then some (b, l) else (removeFirst r l).map fun p => (p.1, b :: p.2)
+
 /-- multiset equality by removing the first partner of each element -/
 def permByB {α} (r : α → α → Bool) : List α → List α → Bool
   | [], l2 => l2.isEmpty
   | a :: l1, l2 =>
-    match l2.findIdx? (r a) with
+    match removeFirst (r a) l2 with
     | none => false
-    | some i => permByB r l1 (l2.eraseIdx i)
+    | some p => permByB r l1 p.2
 
-def vcEqB (a b : List Nat) : Bool :=
-  (List.range (max a.length b.length)).all fun i => VClock.get0 a i == VClock.get0 b i
+/-- `VectorClock::eq` (model shared with C20) -/
+def vcEqB (a b : List Nat) : Bool := VClock.veq a b
 
 def natEqB (a b : Nat) : Bool := a == b
 def boolEqB (a b : Bool) : Bool := a == b
